@@ -324,19 +324,26 @@ fn run(case: &Case, warmup: bool) -> Result<Outcome, Failure> {
                                 if tx.send(Node::List(items)).is_err() {
                                     return 9;
                                 }
-                                // leave exactly `free` descriptor numbers below the limit
-                                let limit: u64 = 200;
+                                // leave exactly `free` descriptor numbers below the limit (the limit is
+                                // on descriptor *numbers*: it sits above everything that is open now,
+                                // sentinels included; counting needs a descriptor itself, so the fill
+                                // level is tracked by arithmetic)
+                                let open_now = fdsnap::fd_map();
+                                let highest = open_now.keys().max().copied().unwrap_or(2) as u64;
+                                let limit: u64 = highest + 1 + 24;
                                 let lim = libc::rlimit { rlim_cur: limit, rlim_max: limit };
                                 if unsafe { libc::setrlimit(libc::RLIMIT_NOFILE, &lim) } != 0 {
                                     return 9;
                                 }
                                 let mut fillers = vec![];
-                                while (fdsnap::count_fds() as u64) + (free as u64) < limit {
+                                let mut in_use = open_now.len() as u64;
+                                while in_use + (free as u64) < limit {
                                     let fd = unsafe { libc::dup(2) };
                                     if fd < 0 {
                                         break;
                                     }
                                     fillers.push(fd);
+                                    in_use += 1;
                                 }
                                 let got = rx.try_recv();
                                 drop(got);
@@ -346,6 +353,9 @@ fn run(case: &Case, warmup: bool) -> Result<Outcome, Failure> {
                                 drop(rx);
                                 drop(tx);
                                 let end = fdsnap::count_fds();
+                                if end == 0 {
+                                    return 9; // could not even list the descriptor table
+                                }
                                 if end != base {
                                     let _ = write!(w, "{} descriptors before, {} after ({} attachments, {} free numbers): {:?}", base, end, attach, free, fdsnap::fd_map());
                                     return 3;
